@@ -141,6 +141,14 @@ pub fn execute(
             receiver,
         } => commands::provide_liquidity(deps, env, info, assets, slippage_tolerance, receiver),
         ExecuteMsg::WithdrawLiquidity {} => {
+            // check if the withdrawal feature is enabled
+            let feature_toggle: FeatureToggle = CONFIG.load(deps.storage)?.feature_toggle;
+            if !feature_toggle.withdrawals_enabled {
+                return Err(ContractError::OperationDisabled(
+                    "withdraw_liquidity".to_string(),
+                ));
+            }
+
             // validate that the asset sent is the token factory LP token
             let trio_info = TRIO_INFO.load(deps.storage)?;
             let lp_token_denom = match trio_info.liquidity_token {
